@@ -15,6 +15,7 @@ rc=$?
 if echo "$out" | grep -q '^VIOLATION'; then
   key=$(for f in $W/replays/$pid/*.json; do python3 -c "import json;print(json.load(open('$f'))['key'])" 2>/dev/null; done | sort | uniq -c | tr '\n' ';')
   echo "CAUGHT $name by $pid: $key"
+  if [[ -n "${KEEP:-}" ]]; then mkdir -p /verif/replays/mut-$name; cp $W/replays/$pid/* /verif/replays/mut-$name/ 2>/dev/null; fi
 else
   echo "MISSED $name by $pid: $(echo "$out" | tail -2 | tr '\n' ' ')"
 fi
